@@ -30,7 +30,7 @@ EXPLANATION = ("Fan relation (each registered destination is offered exactly the
                "one call of each destination registered when the entry was staged (ghost World.stageAt) - is proved for every basic step "
                "and configuration statement and lifted: offered_while_registered, healthy_accepts_while_registered, calls_exact, and the "
                "corollaries for removed / later-added destinations")
-PROFILE_FIXED = dict(p_late_add=0.0, p_remove=0.0, n_dests=(2, 4), p_dest_fail=0.3, p_handles=0.2, p_remote=0.1, p_globals=0.1)
+PROFILE_FIXED = dict(p_late_add=0.0, p_remove=0.0, n_dests=(2, 4), p_dest_fail=0.3, p_handles=0.2, p_remote=0.1, p_globals=0.1, obj_max=6)
 PROFILE_DYN = dict(p_late_add=0.4, p_remove=0.2, n_dests=(1, 3), p_dest_fail=0.3)
 
 
@@ -130,7 +130,18 @@ def oracle(ctx, case, real, rt):
     # report content: class, text, rendering of the affected message
     excs = {e["id"]: e for e in case["env"]["excs"]}
     classes = {c["id"]: c for c in case["env"]["classes"]}
-    for f, r in zip(nonreport_fail, reports):
+    raw = [t for dd, t in rt.raw_reports if dd == ds[0]]
+    for i, (f, r) in enumerate(zip(nonreport_fail, reports)):
+        if i < len(raw) and f[5] is not None and "<repr raised>" not in str(f[5]):
+            import ast
+            try:
+                shown = ast.literal_eval(raw[i])
+            except Exception:  # noqa
+                shown = None
+            if shown != f[5]:
+                ctx.violation("the report's rendering of the affected message is %s, the message's keys and values have the reprs %s"
+                              % (str(raw[i])[:300], str(f[5])[:300]), case)
+                return
         e = excs[f[2]]
         want_exc = classes[e["cls"]]["qualname"]
         want_reason = e["str"] if e["str"] is not None else "eliot: unknown, str() raised exception"
